@@ -1,8 +1,260 @@
 /-
-C11 — property theorems (under construction; see DESIGN.md section 8).
+C11 — Nothing happens before a valid CONNECT.
+
+Property theorems only (helper lemmas: `Proofs/BrokerLife.lean`).  Model:
+`Model/Broker.lean` (`first` = handleConnection/getSession/start, `packet`,
+`stop`).  Specification: `Spec.Broker.refusals`, written from MQTT 3.1.1 §3.1/§3.2
+and independent of the regenerated constants.  All theorems quantify over every
+broker state `b`, every connection id and every first packet.
 -/
-import Mqtt.Model.Broker
-import Mqtt.Spec.Broker
+import Mqtt.Proofs.BrokerLife
 
 namespace Mqtt.Properties.C11
+open Mqtt.Iface.Broker Mqtt.Model.Broker Mqtt.Proofs.BrokerLife
+
+/-! ### 0. the regenerated constants are the protocol's -/
+
+/-- `message.SupportedVersions` as re-read from the source accepts exactly the
+name/level pairs ("MQIsdp", 3) and ("MQTT", 4) of the specification. -/
+theorem C11_facts_versions (req : Connect) :
+    (match Generated.supportedVersions.lookup req.version with
+      | none => false
+      | some name => name == req.protoName) = Spec.Broker.knownVersion req.protoName req.version :=
+  facts_versions req
+
+/-- The flag and identifier checks of the decoder are the specification's
+conditions for "malformed" and "identifier rejected". -/
+theorem C11_checks_are_spec (req : Connect) :
+    flagsBad req = (req.reserved || (match req.will with
+      | some w => decide (w.qos > 2)
+      | none => decide (req.willQosNoWill != 0) || req.willRetainNoWill)) ∧
+    idBad req = ((req.clientId.isEmpty && !req.clean) ||
+      !(req.clientId.all Spec.Broker.printable && req.clientId.length ≤ 32)) :=
+  ⟨(spec_flags req).symm, (spec_id req).symm⟩
+
+/-! ### 1. a first packet that is not accepted has no effect -/
+
+/-- Whenever `first` does not emit CONNACK code 0, the broker state is exactly
+what it was, and the output is the close of `c`, preceded by at most one CONNACK
+to `c` with code 1, 2 or 4: nothing is sent to anybody else. -/
+theorem C11_refused_no_effect (b : B) (c : Nat) (f : First) (authOk : Bool)
+    (h : ∀ sp, Out.send c (.connack sp 0) ∉ (first b c f authOk).2) :
+    (first b c f authOk).1 = b ∧
+    ((first b c f authOk).2 = [.closed c] ∨
+     ∃ k, (k = 1 ∨ k = 2 ∨ k = 4) ∧ (first b c f authOk).2 = [.send c (.connack false k), .closed c]) := by
+  have hacc : accepts f authOk = false := by
+    cases ha : accepts f authOk with
+    | false => rfl
+    | true =>
+      obtain ⟨sp, hsp⟩ := (accepts_iff_emits b c f authOk).mp ha
+      exact absurd hsp (h sp)
+  rcases first_refused b c f authOk hacc with h1 | ⟨k, hk, h1⟩
+  · rw [h1]; exact ⟨rfl, .inl rfl⟩
+  · rw [h1]; exact ⟨rfl, .inr ⟨k, hk, rfl⟩⟩
+
+/-- non-vacuity: connections 1 (persistent, with will) and 2 are live and
+subscribed, a message is retained; a CONNECT with an empty identifier and
+CleanSession=0 on connection 3 is refused with code 2. -/
+example :
+    (∀ sp, Out.send 3 (.connack sp 0) ∉ (first Ex.base 3 (.connect (Ex.conn [] false)) true).2) ∧
+    (first Ex.base 3 (.connect (Ex.conn [] false)) true).2 = [.send 3 (.connack false 2), .closed 3] ∧
+    Ex.base.alive 1 = true ∧ Ex.base.alive 2 = true ∧ Ex.base.store = [(Ex.idB, 2), (Ex.idA, 1)] := by decide
+
+/-- A packet or a connection end on a connection that is not live (never
+accepted, or already ended) is a no-op. -/
+theorem C11_dead_noop (b : B) (c : Nat) (h : b.alive c = false) :
+    (∀ p, packet b c p = (b, [])) ∧ stop b c = (b, []) :=
+  ⟨fun p => packet_dead b c p h, stop_dead b c h⟩
+
+/-- Any sequence of events on a connection `c` that is not live and contains no
+accepted CONNECT for `c` — refused first packets, arbitrary later packets, the
+end of the connection, in any number and order — leaves the whole broker state
+(subscriptions, retained messages, sessions, store, other connections, packet
+id counter) unchanged, and everything emitted is a refusal addressed to `c`. -/
+theorem C11_unaccepted_no_effect (b : B) (c : Nat) (evs : List Ev) (hd : b.alive c = false)
+    (h : ∀ e ∈ evs, unacceptedOn c e = true) :
+    (run b evs).1 = b ∧
+    ∀ os ∈ (run b evs).2, ∀ o ∈ os, o = .closed c ∨ ∃ k, k ≠ 0 ∧ o = .send c (.connack false k) :=
+  run_unaccepted b c evs hd h
+
+/-- `unacceptedOn` is what it is meant to be: an event of connection `c` which,
+if it is a first packet, does not get CONNACK 0 (in any state). -/
+theorem C11_unacceptedOn_iff (b : B) (c : Nat) (e : Ev) :
+    unacceptedOn c e = true ↔
+      (∃ p, e = .packet c p) ∨ e = .close c ∨
+      ∃ f a, e = .first c f a ∧ ∀ sp, Out.send c (.connack sp 0) ∉ (first b c f a).2 := by
+  cases e with
+  | first c' f a =>
+    simp only [unacceptedOn, Bool.and_eq_true, beq_iff_eq, Bool.not_eq_true']
+    constructor
+    · rintro ⟨rfl, ha⟩
+      refine .inr (.inr ⟨f, a, rfl, fun sp hsp => ?_⟩)
+      have := (accepts_iff_emits b c' f a).mpr ⟨sp, hsp⟩
+      rw [ha] at this; exact absurd this (by simp)
+    · rintro (⟨p, hp⟩ | hp | ⟨f', a', hp, hn⟩)
+      · cases hp
+      · cases hp
+      · cases hp
+        refine ⟨rfl, ?_⟩
+        cases ha : accepts f a with
+        | false => rfl
+        | true =>
+          obtain ⟨sp, hsp⟩ := (accepts_iff_emits b c f a).mp ha
+          exact absurd hsp (hn sp)
+  | packet c' p =>
+    simp only [unacceptedOn, beq_iff_eq]
+    constructor
+    · rintro rfl; exact .inl ⟨p, rfl⟩
+    · rintro (⟨p', hp⟩ | hp | ⟨f', a', hp, _⟩)
+      · cases hp; rfl
+      · cases hp
+      · cases hp
+  | close c' =>
+    simp only [unacceptedOn, beq_iff_eq]
+    constructor
+    · rintro rfl; exact .inr (.inl rfl)
+    · rintro (⟨p', hp⟩ | hp | ⟨f', a', hp, _⟩)
+      · cases hp
+      · cases hp; rfl
+      · cases hp
+  | srvPub p =>
+    simp only [unacceptedOn, Bool.false_eq_true, false_iff]
+    rintro (⟨p', hp⟩ | hp | ⟨f', a', hp, _⟩) <;> cases hp
+  | srvSub cb f q =>
+    simp only [unacceptedOn, Bool.false_eq_true, false_iff]
+    rintro (⟨p', hp⟩ | hp | ⟨f', a', hp, _⟩) <;> cases hp
+  | srvUnsub cb f =>
+    simp only [unacceptedOn, Bool.false_eq_true, false_iff]
+    rintro (⟨p', hp⟩ | hp | ⟨f', a', hp, _⟩) <;> cases hp
+
+/-- non-vacuity: on the state above, connection 3 sends a PUBLISH as first
+packet, then a SUBSCRIBE, a retained PUBLISH and a DISCONNECT, and drops: the
+only output is the close after the first packet; subscriptions, retained store
+and sessions are those of before. -/
+example :
+    let evs : List Ev := [.first 3 (.other 3) true, .packet 3 (.subscribe 1 [(Ex.tAB, 2)]),
+      .packet 3 (.publish { qos := 0, retain := true, topic := Ex.tAB, payload := [9] }),
+      .packet 3 .disconnect, .close 3, .first 3 (.connect (Ex.conn Ex.idA false)) false]
+    Ex.base.alive 3 = false ∧ (∀ e ∈ evs, unacceptedOn 3 e = true) ∧
+    (run Ex.base evs).2 = [[.closed 3], [], [], [], [], [.send 3 (.connack false 4), .closed 3]] ∧
+    (run Ex.base evs).1.topics = Ex.base.topics ∧ (run Ex.base evs).1.store = Ex.base.store := by
+  refine ⟨by decide, by decide, by decide, rfl, rfl⟩
+
+/-! ### 2. the answer as a function of the CONNECT -/
+
+/-- The table.  A CONNECT for which the specification has no reason to refuse
+(`refusals = []`) is answered with exactly one packet, CONNACK code 0, and the
+connection is live afterwards.  Otherwise the state is unchanged, the
+connection is closed, and the answer before the close is either nothing — then
+"malformed" (`none`) is among the specification's reasons — or one CONNACK whose
+non-zero code is among the specification's reasons (1: protocol level, 2:
+identifier, 4: credentials). -/
+theorem C11_table (b : B) (c : Nat) (req : Connect) (authOk : Bool) :
+    (Spec.Broker.refusals req authOk = [] →
+      ∃ sp, (first b c (.connect req) authOk).2 = [.send c (.connack sp 0)] ∧
+        (first b c (.connect req) authOk).1.alive c = true) ∧
+    (Spec.Broker.refusals req authOk ≠ [] →
+      (first b c (.connect req) authOk).1 = b ∧
+      (((first b c (.connect req) authOk).2 = [.closed c] ∧ none ∈ Spec.Broker.refusals req authOk) ∨
+       ∃ k, k ≠ 0 ∧ some k ∈ Spec.Broker.refusals req authOk ∧
+         (first b c (.connect req) authOk).2 = [.send c (.connack false k), .closed c])) := by
+  constructor
+  · intro h
+    have ha := (refusals_nil_iff req authOk).mp h
+    rw [first_accepted b c req authOk ha]
+    exact ⟨_, rfl, accepted_alive b c req⟩
+  · intro h
+    have ha : accepts (.connect req) authOk = false := by
+      cases hacc : accepts (.connect req) authOk with
+      | false => rfl
+      | true => exact absurd ((refusals_nil_iff req authOk).mpr hacc) h
+    rcases first_table b c req authOk ha with ⟨h1, hn⟩ | ⟨k, hk, hm, h1⟩
+    · rw [h1]; exact ⟨rfl, .inl ⟨rfl, hn⟩⟩
+    · rw [h1]; exact ⟨rfl, .inr ⟨k, hk, hm, rfl⟩⟩
+
+/-- Acceptance is decided by the CONNECT and the authenticator alone — not by
+the broker state — and is visible as CONNACK code 0. -/
+theorem C11_accept_iff (b : B) (c : Nat) (req : Connect) (authOk : Bool) :
+    (∃ sp, Out.send c (.connack sp 0) ∈ (first b c (.connect req) authOk).2) ↔
+      Spec.Broker.refusals req authOk = [] := by
+  rw [← accepts_iff_emits, refusals_nil_iff]
+
+/-- non-vacuity: one CONNECT per row of the table, on the state above. -/
+example :
+    Spec.Broker.refusals (Ex.conn Ex.idA false) true = [] ∧
+    (first Ex.base 3 (.connect (Ex.conn Ex.idA false)) true).2 = [.send 3 (.connack true 0)] ∧
+    Spec.Broker.refusals { Ex.conn Ex.idA true with version := 5 } true = [some 1] ∧
+    (first Ex.base 3 (.connect { Ex.conn Ex.idA true with version := 5 }) true).2 =
+      [.send 3 (.connack false 1), .closed 3] ∧
+    Spec.Broker.refusals (Ex.conn [1] true) true = [some 2] ∧
+    (first Ex.base 3 (.connect (Ex.conn [1] true)) true).2 = [.send 3 (.connack false 2), .closed 3] ∧
+    Spec.Broker.refusals (Ex.conn Ex.idA true) false = [some 4] ∧
+    (first Ex.base 3 (.connect (Ex.conn Ex.idA true)) false).2 = [.send 3 (.connack false 4), .closed 3] ∧
+    Spec.Broker.refusals { Ex.conn Ex.idA true with reserved := true } true = [none] ∧
+    (first Ex.base 3 (.connect { Ex.conn Ex.idA true with reserved := true }) true).2 = [.closed 3] := by
+  simp only [Spec.Broker.refusals, Spec.Broker.knownVersion, facts_mqtt, facts_mqisdp]
+  decide
+
+/-! ### 3. precedence of the checks, as the code applies them -/
+
+/-- An unknown protocol name/level pair is answered with code 1, whatever else
+is wrong with the CONNECT. -/
+theorem C11_precedence_level (b : B) (c : Nat) (req : Connect) (authOk : Bool)
+    (h : Spec.Broker.knownVersion req.protoName req.version = false) :
+    first b c (.connect req) authOk = (b, [.send c (.connack false 1), .closed c]) := by
+  rw [first_connect, facts_versions, h]; rfl
+
+/-- Known level, malformed flags: closed without CONNACK, whatever the
+identifier and the credentials. -/
+theorem C11_precedence_flags (b : B) (c : Nat) (req : Connect) (authOk : Bool)
+    (h1 : Spec.Broker.knownVersion req.protoName req.version = true) (h2 : flagsBad req = true) :
+    first b c (.connect req) authOk = (b, [.closed c]) := by
+  rw [first_connect, facts_versions, h1, h2]; rfl
+
+/-- Known level, well-formed flags, unacceptable identifier: code 2, whatever the credentials. -/
+theorem C11_precedence_id (b : B) (c : Nat) (req : Connect) (authOk : Bool)
+    (h1 : Spec.Broker.knownVersion req.protoName req.version = true) (h2 : flagsBad req = false)
+    (h3 : idBad req = true) :
+    first b c (.connect req) authOk = (b, [.send c (.connack false 2), .closed c]) := by
+  rw [first_connect, facts_versions, h1, h2, h3]; rfl
+
+/-- Everything acceptable except the credentials: code 4. -/
+theorem C11_precedence_auth (b : B) (c : Nat) (req : Connect)
+    (h1 : Spec.Broker.knownVersion req.protoName req.version = true) (h2 : flagsBad req = false)
+    (h3 : idBad req = false) :
+    first b c (.connect req) false = (b, [.send c (.connack false 4), .closed c]) := by
+  rw [first_connect, facts_versions, h1, h2, h3]; rfl
+
+/-- non-vacuity: a CONNECT with every defect at once gets code 1; with a known
+level, the malformed flags win over the bad identifier and the credentials. -/
+example :
+    let bad : Connect := { Ex.conn [1] false with version := 9, reserved := true }
+    let bad2 : Connect := { Ex.conn [1] false with reserved := true }
+    (first Ex.base 3 (.connect bad) false).2 = [.send 3 (.connack false 1), .closed 3] ∧
+    flagsBad bad = true ∧ idBad bad = true ∧
+    (first Ex.base 3 (.connect bad2) false).2 = [.closed 3] := by decide
+
+/-! ### 4. how many CONNACKs -/
+
+/-- A CONNECT that passes the decoder's flag checks (everything but a
+malformed one) is answered with exactly one CONNACK; a malformed CONNECT, any
+other packet and undecodable bytes get none. -/
+theorem C11_one_connack (b : B) (c : Nat) (f : First) (authOk : Bool) :
+    ((first b c f authOk).2.filter (fun o => match o with | .send _ (.connack _ _) => true | _ => false)).length =
+      match f with
+      | .connect req => if Spec.Broker.knownVersion req.protoName req.version && flagsBad req then 0 else 1
+      | _ => 0 := by
+  cases f with
+  | garbage => rfl
+  | other t => rfl
+  | connect req =>
+    show _ = if Spec.Broker.knownVersion req.protoName req.version && flagsBad req then 0 else 1
+    rw [first_connect, ← facts_versions]
+    cases levelOk req <;> cases flagsBad req <;> cases idBad req <;> cases authOk <;> rfl
+
+/-- Any first packet other than a CONNECT: closed, nothing sent, state unchanged. -/
+theorem C11_not_connect (b : B) (c : Nat) (authOk : Bool) :
+    (∀ t, first b c (.other t) authOk = (b, [.closed c])) ∧ first b c .garbage authOk = (b, [.closed c]) :=
+  ⟨fun _ => rfl, rfl⟩
+
 end Mqtt.Properties.C11
